@@ -35,6 +35,31 @@ def corpus(rng, cls, n):
             out += b"#%c%c%c%012x" % (65 + i % 26, 65 + (i // 26) % 26, 65 + (i // 676) % 26, rng.randrange(1 << 24) * 7919)
             i += 1
         return list(out[:n])
+    if cls == "farcopy":             # literals, short matches and back-to-back long matches copied from far (>= 16 KiB) back:
+        base = min(n // 3, 40000)    # many symbols whose code + extra bits are long (up to 13 distance extra bits)
+        out = [rng.choice(b"etaoinshrdlu ETAOIN0123456789,.;\n") if rng.random() < 0.85 else rng.randrange(256) for _ in range(max(base, 20000))]
+        while len(out) < n:
+            r = rng.random()
+            if r < 0.25: out += [rng.randrange(256) for _ in range(rng.randrange(1, 4))]
+            else:
+                ln = rng.choice([3, 4, 5, 8, 11, 13, 19, 35, 67, 131, 258, rng.randrange(3, 259)])
+                far = rng.randrange(16385, min(len(out), 32768)) if r < 0.8 or len(out) < 200 else rng.randrange(1, 200)
+                src = len(out) - far
+                out += out[src:src + ln] if far >= ln else (out[src:] * (ln // far + 1))[:ln]
+        return out[:n]
+    if cls == "symmix":              # random literals from an alphabet of random size, short matches at distances spread over all
+        nlit = 16 + rng.randrange(236); p_long = 4 + rng.randrange(60); p_lit = 2 + rng.randrange(6)   # distance codes, runs of long far matches
+        out = []
+        def cp(ln, dist):
+            for _ in range(ln): out.append(out[len(out) - dist])
+        while len(out) < n:
+            if len(out) <= 33000 or rng.randrange(p_lit) == 0:
+                out += [rng.randrange(nlit) for _ in range(1 + rng.randrange(6))]
+            elif rng.randrange(p_long) == 0:
+                for _ in range(2 + rng.randrange(3)): cp(131 + rng.randrange(127), 16385 + rng.randrange(16384))
+            else:
+                db = rng.randrange(14); cp(3 + rng.randrange(6), (1 << db) + rng.randrange(1 << db))
+        return out[:n]
     if cls == "lowent":
         return [rng.choice([65, 66, 67, 68]) for _ in range(n)]
     raise ValueError(cls)
@@ -151,6 +176,10 @@ def judge(module, recs, wd, tag, shards=8, timeout=3000, weight=None):
     expect = sum(len(r["runs"]) for r in recs) if recs and "runs" in recs[0] else len(recs)
     if len(res) != expect: raise Infra("%s judged %d of %d scenarios" % (module, len(res), expect))
     return res, sum(wl for _, wl in outs)
+
+def drift_count(res):
+    """calls whose (entry state -> return state) pair is not in the tabulated DeflateStreamOps relation (rule M1, informational)"""
+    return sum(len(r.get("drift", [])) for r in res.values())
 
 def describe(s):
     inv = {v: k for k, v in API.items()}
